@@ -12,7 +12,7 @@ for id in $ids; do
   log=/var/tmp/run_seed.$id.log
   MUTANT_BASE=$base sh tools/mutant.sh $patch $prop quick > $log 2>&1; rc=$?
   if [ $rc = 3 ] || grep -q "PATCH DOES NOT APPLY\|with conflicts" $log; then
-    base=c548b8b
+    base=$(/venv/bin/python -c "import json,sys; print(json.load(open(sys.argv[1])).get(\"base_commit\") or \"c548b8b\")" $d/meta.json)
     MUTANT_BASE=$base sh tools/mutant.sh $d/patch.diff $prop quick > $log 2>&1; rc=$?
     patch=$d/patch.diff
   fi
